@@ -11,5 +11,7 @@ CONSTANTS
   MaxDials = 0
   MaxCalls = 0
   MaxStore = 0
+  CtxMode = "ignored"
+  MaxStalls = 0
 INVARIANTS TSuccessOnlyIf TIgnoresNonCritical TKeysAgree TPoolIsIssued TPoolReturned TDestination TNoResidue
 POSTCONDITION Consumed
